@@ -144,7 +144,7 @@ CLAIMS = {
         "builder and a test CA generated on the spot (own DER encoder, openssl CLI for RSA / PKCS#7) and given to KSI_PublicationsFile_parse, "
         "_getSignedDataLength, _verify / KSI_verifyPublicationsFile and the lookup functions; every accepted structure is also signed over the spec's range and "
         "must verify. Byte alterations cover the signed range, the signature value and the embedded signer certificate.",
-   note="quick: sequences <= 4 records, every 7th octet of altered regions, publication lists <= 3 in every order; thorough: <= 6 records, every octet, lists <= 4. Download of the file over HTTP is exercised by C04 (pfsrc), not here.",
+   note="quick: sequences <= 4 records, every 7th octet of altered regions, publication lists <= 3 in every order; thorough: <= 5 records (10 record kinds: 111 111 sequences), every octet, lists <= 4. Download of the file over HTTP is exercised by C04 (pfsrc), not here.",
    technique="TLC enumeration of a declarative publications-file model + replay of every case into the real parser / PKI verification / lookups with independently built, really signed files"),
  "C04": dict(level="model_checking", design_ref="DESIGN.md 4/C04",
    text="AnchorPolicy.tla transcribes the rule trees of the calendar-based, key-based, publications-file, user-publication and general policies (policy.c) as data, gives "
